@@ -335,6 +335,8 @@ def worker(job):
     for idx in job['indices']:
         it = items[idx]
         req = it['req']
+        if job.get('only_ops') and req['op'] not in job['only_ops']:
+            continue
         app.restore(it['snap'])
         app.reset_caches()
         db0, _ = project.dump(app.engine)
@@ -385,7 +387,19 @@ def worker(job):
                 except Exception:
                     resp = {'status': st, 'code': '', 'body': {'unparsable': True}}
                 wf = st < 400 or wellformed_error(st, h, b, req.get('v'))
-            lines.append({'id': lid, 'mode': job['mode'], 'db0': db0, 'req': req,
+            restart_ok = True
+            if req['op'] == 'sync' and resp['status'] >= 500 and out['error'] is not None \
+                    and not isinstance(out['error'], Crash):
+                # the failed start-up is followed by another one in the same
+                # process, as a WSGI server does: nothing is reset in between
+                from placement import deploy
+                try:
+                    deploy.update_database(app.conf)
+                    _f2, extra2 = project.dump(app.engine)
+                    restart_ok = bool(extra2['std_classes_ok'] and extra2['std_traits_ok'])
+                except Exception:
+                    restart_ok = False
+            lines.append({'id': lid, 'mode': job['mode'], 'db0': db0, 'req': req, 'restart_ok': restart_ok,
                           'fault': {'kind': '+'.join(x['kind'] for x in plan), 'k': f['k'],
                                     'k2': plan[1]['k'] if len(plan) > 1 else 0, 'at': out['at'] or ''},
                           'resp': resp, 'wellformed': wf, 'final': final,
